@@ -10,6 +10,7 @@ static PANICS: Mutex<Vec<(String, String)>> = Mutex::new(Vec::new());
 
 struct Ctx { rep: Arc<Mutex<Report>>, disk: Arc<SimDisk>, property: String, scratch: PathBuf }
 static CTX: Mutex<Option<Ctx>> = Mutex::new(None);
+pub static MAIN_DONE: std::sync::atomic::AtomicBool = std::sync::atomic::AtomicBool::new(false);
 
 pub fn scratch_root() -> PathBuf { PathBuf::from(format!("/dev/shm/nomt-sim/{}", std::process::id())) }
 
@@ -37,7 +38,13 @@ pub fn install_panic_hook() {
             ctx.disk.export(&mut out);
             out.sched_steps = simrt::SYNC_OPS.load(std::sync::atomic::Ordering::Relaxed);
             out.panic = Some(format!("{msg} @ {loc}"));
-            if out.violations.is_empty() || loc.contains("nomt-sim/src") || loc.contains("shims/") { out.violations.push(classify(&msg, &loc, &ctx.property, out.steps_done)); }
+            let leaked = msg.starts_with("deadlock!") && MAIN_DONE.load(std::sync::atomic::Ordering::SeqCst);
+            if leaked {
+                // every caller-visible operation returned and all checks ran; what remains are
+                // background workers of a failed operation blocked forever (leaked threads)
+                out.notes.push(format!("leaked blocked background tasks after the scenario finished: {msg}"));
+                *out.probes.entry("sim.leaked_blocked_tasks".into()).or_default() += 1;
+            } else if out.violations.is_empty() || loc.contains("nomt-sim/src") || loc.contains("shims/") { out.violations.push(classify(&msg, &loc, &ctx.property, out.steps_done)); }
             println!("RESULT {}", serde_json::to_string(&out).unwrap());
             use std::io::Write;
             let _ = std::io::stdout().flush();
@@ -52,12 +59,14 @@ pub fn run_scenario(scen: &Scenario) -> Report {
     let _ = std::fs::remove_dir_all(&scratch);
     std::fs::create_dir_all(&scratch).unwrap();
     let dir = scratch.join("db");
-    let keep_trace = scen.checks.rules || scen.checks.intact;
+    let dry = scen.extra.get("dry").and_then(|x| x.as_bool()).unwrap_or(false);
+    let keep_trace = scen.checks.rules || scen.checks.intact || dry;
     let yield_on_events = scen.extra.get("yield_on_events").and_then(|x| x.as_bool()).unwrap_or(true);
     let disk = Arc::new(SimDisk::new(scratch.clone(), scen.faults.clone(), scen.knobs.clone(), keep_trace, yield_on_events));
     simrt::hooks::install(disk.clone());
     let rep: Arc<Mutex<Report>> = Arc::new(Mutex::new(Report::default()));
     PANICS.lock().unwrap_or_else(|e| e.into_inner()).clear();
+    MAIN_DONE.store(false, std::sync::atomic::Ordering::SeqCst);
     *CTX.lock().unwrap() = Some(Ctx { rep: rep.clone(), disk: disk.clone(), property: scen.property.clone(), scratch: scratch.clone() });
 
     let mut cfg = shuttle::Config::new();
@@ -75,6 +84,7 @@ pub fn run_scenario(scen: &Scenario) -> Report {
             "openrace" => crate::conc::run_openrace(&scen2, dir2.clone(), rep2.clone(), disk2.clone()),
             other => panic!("unknown scenario kind {other}"),
         }
+        MAIN_DONE.store(true, std::sync::atomic::Ordering::SeqCst);
     };
     let res = std::panic::catch_unwind(std::panic::AssertUnwindSafe(|| match scen.sched {
         Sched::Random => { shuttle::Runner::new(shuttle::scheduler::RandomScheduler::new_from_seed(scen.sched_seed, 1), cfg).run(body); }
@@ -83,6 +93,7 @@ pub fn run_scenario(scen: &Scenario) -> Report {
     simrt::hooks::uninstall();
     let mut out = rep.lock().map(|g| g.clone()).unwrap_or_else(|p| p.into_inner().clone());
     disk.export(&mut out);
+    if dry { out.step_events = disk.step_sites(); }
     out.sched_steps = simrt::SYNC_OPS.load(std::sync::atomic::Ordering::Relaxed);
     *CTX.lock().unwrap() = None;
     if res.is_err() && out.violations.is_empty() {
